@@ -229,6 +229,14 @@ def judgeC06 (o : Obs) : Verdict :=
     let tokens := o.events.filterMap (fun e => if e.tag == "cancel" && arg e 0 == t then some (arg e 2) else none)
     let caughtTok := o.events.filterMap (fun e =>
       if e.tag == "caught" && arg e 0 == 1 && arg e 1 == t - 1000 then some (arg e 2) else none)
+    -- the cancellation that takes effect is the first one issued while the task was not finished; later ones do nothing
+    let effective := o.events.filter (fun e => e.tag == "cancel" && arg e 0 == t && (arg e 1 == 1 || arg e 1 == 2))
+    fail (caughtTok.any (fun k => !(effective.map (fun e => arg e 2)).contains k))
+      s!"task {t}: an awaiter saw TaskCancelled with token {caughtTok}, but only the cancels {effective.map (fun e => arg e 2)} were issued while the task was unfinished" ++
+    (match effective.head? with
+     | some e => fail (arg e 1 == 1 && caughtTok.any (· != arg e 2))
+         s!"task {t} was cancelled before it started with token {arg e 2}, awaiters saw {caughtTok}: the outcome changed after the task was done"
+     | none => []) ++
     fail backwards s!"task {t}: status went backwards or changed after completion: {codes}" ++
     fail (rets.length > 1) s!"task {t}: awaiters received different results {rets}" ++
     fail (!cancelCreated.isEmpty && ran) s!"task {t} was cancelled before it started but its code ran" ++
